@@ -473,7 +473,7 @@ struct Args {
     int shard = 0, nshards = 1;
     std::set<std::string> known;   // signatures listed in known_findings.txt for this property
     bool isolate = true;     // run a sample of the generated cases in a forked child (pristine process state)
-    long isolate_n = 60;     // about this many per rapidcheck part and shard (a fork of an ASan process costs 20-70 ms here)
+    long isolate_n = 100;    // about this many per rapidcheck part and shard (a fork of an ASan process costs 20-70 ms here)
     double scale = 1.0;      // multiplies case counts (driver uses it for thorough tiers / mutant sweeps)
     bool quick() const { return tier == "quick"; }
     long n(long quick_n, long thorough_n) const {
@@ -499,7 +499,7 @@ static inline Args parse_args(int argc, char **argv) {
     }
     if (a.seed == 0) a.seed = 1;
     if (getenv("VERIF_NO_ISOLATE")) a.isolate = false;
-    if (a.tier == "thorough" && a.isolate_n == 60) a.isolate_n = 300;
+    if (a.tier == "thorough" && a.isolate_n == 100) a.isolate_n = 300;
 #if defined(FLAVOUR_TSAN)
     a.isolate = false;   // ThreadSanitizer and fork do not mix well; the TSan runner creates its own threads per case
 #endif
